@@ -130,6 +130,9 @@ macro_rules! static_assert {
 pub mod backend;
 pub mod field;
 
+#[cfg(crrl_verif)]
+pub mod verif;
+
 pub use backend::{Zu128, Zu256, Zu384};
 
 #[cfg(feature = "ed25519")]
